@@ -198,7 +198,7 @@ class BoolExpr:
             oracle_on_result = R.x_in(geom.concrete_region(outcome["_reg"]), p)
             txt = (f"{expr_str(self.expr)} A={self.A} B={self.B}+({self.shift(xs)[0]}, {self.shift(xs)[1]}) p=({p[0]}, {p[1]}): set truth {truth}, "
                    f"`p in result` says {lib}, region of result vertices says {oracle_on_result}; result={_short(outcome['R'])}; dist^2 to operand boundaries {d2}")
-            bad = (oracle_on_result != truth) and (d2 is None or d2 >= R.TOL**2)
+            bad = (oracle_on_result != truth) and (d2 is None or d2 >= R.BAND**2)
             return bad, txt
         return self.confirm_more(name, xs, outcome, exc)
 
